@@ -271,6 +271,83 @@ def callsites():
     return sorted(set(sites))
 
 
+def _chain(stmt):
+    """an if/elif/else chain as [(test, last statement of the branch)]"""
+    out = []
+    while True:
+        need(isinstance(stmt, ast.If), 'expected an if/elif chain, got ' + ast.unparse(stmt)[:60])
+        out.append((ast.unparse(stmt.test), ast.unparse(stmt.body[-1])))
+        if not stmt.orelse:
+            return out
+        if len(stmt.orelse) == 1 and isinstance(stmt.orelse[0], ast.If):
+            stmt = stmt.orelse[0]
+            continue
+        out.append(('else', ast.unparse(stmt.orelse[-1])))
+        return out
+
+
+def denial_shape():
+    """RichReplyMethods._error and errorNoCapability: the decisions the model's error_ / errorNoCapability mirror.
+    errorNoCapability: Raise defaults to True; the rendered message s = self.__makeReply(v, s); then the final chain
+    `if s: return self._error(s, **kwargs)  elif kwargs['Raise']: raise Error()`."""
+    t = tree('src/callbacks.py')
+    e = find_def(t, '_error', 'RichReplyMethods')
+    need([a.arg for a in e.args.args] == ['self', 's', 'Raise'] and len(e.args.defaults) == 1 and ast.unparse(e.args.defaults[0]) == 'False',
+         '_error signature changed: ' + ast.unparse(e.args))
+    need(len(e.body) == 1, '_error: expected a single if/else')
+    err = _chain(e.body[0])
+    f = find_def(t, 'errorNoCapability', 'RichReplyMethods')
+    need(len(f.body) >= 3, 'errorNoCapability body too short')
+    head = _chain(f.body[0])
+    need(isinstance(f.body[-2], ast.Assign) and ast.unparse(f.body[-2]) == 's = self.__makeReply(v, s)',
+         'errorNoCapability: the message is no longer rendered right before the decision: ' + ast.unparse(f.body[-2])[:80])
+    tail = _chain(f.body[-1])
+    # nothing but the log line and the choice of the template between the default and the rendering
+    mid = [type(x).__name__ for x in f.body[1:-2]]
+    need(mid == ['Expr', 'If'], 'errorNoCapability: unexpected statements before the rendering: %r' % mid)
+    # irc.error(s, Raise=True) of the two proxies raises before anything else is done
+    proxies = []
+    for cls, pos in (('ReplyIrcProxy', 0), ('NestedCommandsIrcProxy', 1)):
+        g = find_def(t, 'error', cls)
+        need(len(g.body) > pos and isinstance(g.body[pos], ast.If), '%s.error: no Raise test at statement %d' % (cls, pos))
+        need(all(isinstance(x, ast.Assign) for x in g.body[:pos]), '%s.error: something other than an assignment precedes the Raise test' % cls)
+        st = g.body[pos]
+        proxies.append((cls, ast.unparse(st.test), ast.unparse(st.body[-1])))
+    return err, head + tail, proxies
+
+
+def nocap_sites():
+    """every call <x>.errorNoCapability(...) in src/ and plugins/: (file, enclosing def, value of the Raise keyword or 'default')"""
+    files = sorted(glob.glob(os.path.join(REPO, 'src', '**', '*.py'), recursive=True)) + plugin_files() \
+        + [os.path.join(REPO, 'plugins', '__init__.py')]
+    sites, seen = [], set()
+    for fn in files:
+        real = os.path.realpath(fn)
+        if real in seen or os.path.basename(fn) == 'test.py':
+            continue
+        seen.add(real)
+        rel = os.path.relpath(real, os.path.realpath(REPO))
+        if rel.startswith('src/plugins') or rel.startswith('test'):
+            continue
+        t = _parse(fn)
+
+        def walk(node, path):
+            for ch in ast.iter_child_nodes(node):
+                p = path + [ch.name] if isinstance(ch, (ast.FunctionDef, ast.AsyncFunctionDef, ast.ClassDef)) else path
+                if isinstance(ch, ast.Call) and isinstance(ch.func, ast.Attribute) and ch.func.attr == 'errorNoCapability':
+                    kw = 'default'
+                    for k in ch.keywords:
+                        if k.arg == 'Raise':
+                            kw = ast.unparse(k.value)
+                        elif k.arg is None:
+                            kw = '**' + ast.unparse(k.value)
+                    sites.append((rel, '.'.join(p), kw))
+                walk(ch, p)
+        walk(t, [])
+    need(len(sites) >= 20, 'errorNoCapability call sites not found (%d)' % len(sites))
+    return sorted(sites)
+
+
 @table('T01')
 def gen_T01():
     caps = default_caps()
@@ -280,6 +357,8 @@ def gen_T01():
     handlers = gate_shape()
     ws = wraps()
     cs = callsites()
+    err_chain, enc_chain, proxy_raise = denial_shape()
+    ncs = nocap_sites()
     out = 'Require Import Base.Wire.\n'
     out += 'Definition DEFAULT_CAPS : list str :=\n  %s.\n' % clist(cstr(c) for c in caps)
     out += 'Definition GATING : list str :=\n  %s.\n' % clist(cstr(c) for c in gating)
@@ -296,4 +375,11 @@ def gen_T01():
     out += '(* file, enclosing def/class, def|use, name *)\n'
     out += 'Definition CALLSITES : list (str * str * str * str) :=\n  %s.\n' % clist(
         '\n   (%s, %s, %s, %s)' % (cstr(a), cstr(b), cstr(c), cstr(d)) for a, b, c, d in cs)
+    out += '(* RichReplyMethods._error and errorNoCapability as decision chains (test, last statement of the branch) *)\n'
+    out += 'Definition ERROR_CHAIN : list (str * str) :=\n  %s.\n' % clist('(%s, %s)' % (cstr(a), cstr(b)) for a, b in err_chain)
+    out += 'Definition ENC_CHAIN : list (str * str) :=\n  %s.\n' % clist('(%s, %s)' % (cstr(a), cstr(b)) for a, b in enc_chain)
+    out += 'Definition PROXY_ERROR_RAISE : list (str * str * str) :=\n  %s.\n' % clist('(%s, %s, %s)' % (cstr(a), cstr(b), cstr(c)) for a, b, c in proxy_raise)
+    out += '(* file, enclosing def, Raise keyword of every errorNoCapability call *)\n'
+    out += 'Definition NOCAP_SITES : list (str * str * str) :=\n  %s.\n' % clist(
+        '\n   (%s, %s, %s)' % (cstr(a), cstr(b), cstr(c)) for a, b, c in ncs)
     return 'src/ircdb.py, src/commands.py, src/callbacks.py, plugins/*/**.py', out
